@@ -31,6 +31,7 @@ demo() {
     r9_c19_b) (bash $D/demo/run.sh 2>&1 | grep -qE "DEMO FAILED|DIFFERENT|same variable: False|^error"; [ $? = 0 ] && echo 1 || echo 0) ;;
     r10_c06_*) (cd $D/demo && CARGO_TARGET_DIR=/tmp/wt_$a/target/demo cargo run --offline -q >/dev/null 2>&1; echo $?) ;;
     r10_c19_*) (bash $D/demo/run.sh >/dev/null 2>&1; echo $?) ;;
+    r12_*) (cd $D && bash ./run_demo.sh >/dev/null 2>&1; echo $?) ;;
     r11_c06_*) (cd $D/demo && CARGO_TARGET_DIR=/tmp/wt_$a/target/demo cargo run --offline -q >/dev/null 2>&1; echo $?) ;;
     r11_c19_a) (cd $D/demo && bash ./run.sh >/dev/null 2>&1; echo $?) ;;
     r11_c19_b) (cd $D && bash ./run_demo.sh >/dev/null 2>&1; echo $?) ;;
